@@ -275,11 +275,12 @@ func (e *Env) Reopen() error {
 func (e *Env) Write(n int) error {
 	b := make([]byte, n)
 	FillEvent(b, e.NextID, e.CurOff)
+	inj := e.Disk.Injected()
 	got, err := e.W.Write(b)
 	if err == nil {
 		e.CurOff += got
 	}
-	e.Emit(core.Event{"ev": "Write", "n": n, "got": got, "err": ErrKind(err), "full": IsFull(err)})
+	e.Emit(core.Event{"ev": "Write", "n": n, "got": got, "err": ErrKind(err), "full": IsFull(err) || e.Disk.Injected() > inj})
 	return err
 }
 
@@ -287,8 +288,9 @@ func (e *Env) Write(n int) error {
 func (e *Env) Next() error {
 	// the event is part of the buffer even if the flush triggered by Next fails
 	e.Emit(core.Event{"ev": "NextCall", "size": e.CurOff})
+	inj := e.Disk.Injected()
 	err := e.W.Next()
-	e.Emit(core.Event{"ev": "Next", "err": ErrKind(err), "full": IsFull(err)})
+	e.Emit(core.Event{"ev": "Next", "err": ErrKind(err), "full": IsFull(err) || e.Disk.Injected() > inj})
 	e.NextID++
 	e.CurOff = 0
 	return err
@@ -296,8 +298,9 @@ func (e *Env) Next() error {
 
 // Flush flushes the write buffer.
 func (e *Env) Flush() error {
+	inj := e.Disk.Injected()
 	err := e.W.Flush()
-	e.Emit(core.Event{"ev": "Flush", "err": ErrKind(err), "full": IsFull(err)})
+	e.Emit(core.Event{"ev": "Flush", "err": ErrKind(err), "full": IsFull(err) || e.Disk.Injected() > inj})
 	return err
 }
 
